@@ -1,4 +1,5 @@
 import JunoModel.C02.Proofs
+import JunoModel.C02.ProofsStore
 import JunoModel.Generated.Arith
 /-!
 C02 — "A block is stored only if hash, linkage, tx hashes and state root all verify."
@@ -207,6 +208,26 @@ theorem committed_fields_injective_post07 (b b' : Block) (ov ov' : Option Term) 
       eventsOnly b.receipts = eventsOnly b'.receipts :=
   post07_inj b b' ov ov' x h h'
 
+/-- pre-0.7 Pedersen format (blocks below the network's `First07Block`, protocol < 0.13.2; mainnet's first
+833 blocks): number, state root, transaction count, the chain id and the parent hash; every transaction's
+hash and signature (as in the post-0.7 format). NOT committed: sequencer address, timestamp, event count and
+every event (the format hashes zeros in their places), the version string, gas prices, receipts, the
+state diff. A hash of this format is never a hash of another format. -/
+theorem committed_fields_injective_pre07 (net : Net) (b b' : Block) (sd sd' : StateDiff) (ov ov' : Option Term) (x : Term)
+    (hf : dispatch net b.header.number b.header.version = some .pre07)
+    (h : blockHash net b sd ov = some x) (h' : blockHash net b' sd' ov' = some x) :
+    dispatch net b'.header.number b'.header.version = some .pre07 ∧
+    (⟨b.header.number, b.header.stateRoot, b.header.txCount, net.chainId, b.header.parentHash⟩ : HeaderViewPre07)
+      = ⟨b'.header.number, b'.header.stateRoot, b'.header.txCount, net.chainId, b'.header.parentHash⟩ ∧
+    b.txs.map (sigViewPedersen (allSigsOf b)) = b'.txs.map (sigViewPedersen (allSigsOf b')) :=
+  blockHash_pre07_inj net b b' sd sd' ov ov' x hf h h'
+
+/-- … the named exceptions of that format: sequencer address, timestamp, event count, receipts (events
+included) are not read by `pre07Hash` … -/
+theorem exception_pre07_uncommitted (b : Block) (c : Term) (seq : Option Term) (ts ec : UInt64) (rs : List Receipt) :
+    pre07 { b with header := { b.header with sequencer := seq, timestamp := ts, eventCount := ec }, receipts := rs } c = pre07 b c := by
+  simp [pre07, pedTxComm]
+
 /-! ## Acceptance -/
 
 /-- `accept_sound`: a block is stored only if the state update carries the block's hash and root,
@@ -262,6 +283,44 @@ theorem tamper_rejected_v0132 {σ : Type} (sem : StateSem σ) (net : Net) (c c' 
     rcases hdiff with hd | hd
     · exact absurd this.1 hd
     · exact absurd this.2.symm hd
+
+/-- `tamper_rejected`, pre-0.7 format. -/
+theorem tamper_rejected_pre07 {σ : Type} (sem : StateSem σ) (net : Net) (c c' d : Chain σ) (B B' : Bundle)
+    (hacc : accept sem net c B = .ok c')
+    (hu : inUnverifiable net B.block.header.number = false)
+    (hu' : inUnverifiable net B'.block.header.number = false)
+    (hf : dispatch net B.block.header.number B.block.header.version = some .pre07)
+    (hsame : B'.block.header.hash = B.block.header.hash)
+    (hdiff : dispatch net B'.block.header.number B'.block.header.version ≠ some .pre07 ∨
+      (⟨B'.block.header.number, B'.block.header.stateRoot, B'.block.header.txCount, net.chainId, B'.block.header.parentHash⟩ : HeaderViewPre07)
+        ≠ ⟨B.block.header.number, B.block.header.stateRoot, B.block.header.txCount, net.chainId, B.block.header.parentHash⟩ ∨
+      B'.block.txs.map (sigViewPedersen (allSigsOf B'.block)) ≠ B.block.txs.map (sigViewPedersen (allSigsOf B.block))) :
+    ∃ e, accept sem net d B' = .error e := by
+  cases hacc' : accept sem net d B' with
+  | error e => exact ⟨e, rfl⟩
+  | ok d' =>
+    obtain ⟨ov, _, hh⟩ := (accept_ok sem net c c' B hacc).1.hash hu
+    obtain ⟨ov', _, hh'⟩ := (accept_ok sem net d d' B' hacc').1.hash hu'
+    rw [hsame] at hh'
+    have := blockHash_pre07_inj net B.block B'.block B.su.diff B'.su.diff ov ov' _ hf hh hh'
+    rcases hdiff with hd | hd | hd
+    · exact absurd this.1 hd
+    · exact absurd this.2.1.symm hd
+    · exact absurd this.2.2.symm hd
+
+/-- NAMED EXCEPTION, the unverifiable range (`BlockHashMetaInfo.UnverifiableRange`; Goerli / integration
+history): inside it `VerifyBlockHash` checks only that transactions and receipts pair up — whatever the
+header, the transactions and the DECLARED hash are, it succeeds as soon as the hash function itself does
+not fail. Linkage, the state-update cross checks and the state roots are still enforced
+(`unlinked_or_wrong_root_rejected`, `accept_sound` do not depend on the range). -/
+theorem exception_unverifiable_range (net : Net) (b : Block) (sd : StateDiff)
+    (hu : inUnverifiable net b.header.number = true)
+    (hl : b.txs.length = b.receipts.length)
+    (hr : (List.zip b.txs b.receipts).all (fun tr => tr.1.hash == some tr.2.txHash) = true)
+    (hc : (l1CalldataChecked && b.txs.any l1NoCalldata) = false)
+    (hh : (blockHash net b sd (if b.header.sequencer.isNone then some (.felt 0) else none)).isSome = true) :
+    verifyBlockHash net b sd = .ok () :=
+  verifyBlockHash_unverifiable net b sd hu hl hr hc hh
 
 /-- Linkage and state root are checked independently of every hash: a block whose number or parent
 hash does not continue the head, or whose declared roots do not match the state before / after
@@ -564,6 +623,226 @@ theorem l1handler_nonce_drop_accepted : strictTxKinds = false →
      exact ⟨.felt 1, { l0 with hash := h }, { l0 with hash := h, nonce := none, callData := [.felt 1, .felt 2] },
        by decide, by decide, rfl, by decide, by decide⟩)
 
+/-! ## The store-level node (round 4): `Store` over the key/value store
+
+`ModelStore.lean` transcribes what the code does with the buckets the property calls "the stored chain
+and indexes": the head is DERIVED from `ChainHeight` + `BlockHeadersByNumber` on every call
+(`verifyBlockSuccession`, `headNumberAndHash`, `headStateRoot`), and `writeBlockContent` is a concrete
+list of puts into one batch, with `storeCasmHashMetadata` as the only step that can still refuse the
+block. `NodeS` = (index store, abstract chain); the theorems below say that the index store and the
+abstract chain of `accept_sound` / `chain_invariant` never drift apart. -/
+
+/-- REFINEMENT, one step: on a node whose index store agrees with its abstract chain (`DBInv`: the head
+the code reads from the two buckets IS the abstract head), every block the concrete `Store` of either
+backend stores is stored by the abstract `storeTxn` — so `accept_sound` and everything built on it
+speak about the concrete `Store` — and the agreement is preserved. -/
+theorem store_level_refines_chain {σ : Type} (newBackend : Bool) (sem : StateSem σ) (n n' : NodeS σ) (B : Bundle)
+    (commitments : Nat) (v2of : Nat → Nat) (hi : DBInv n.db n.chain)
+    (h : storeDB newBackend sem n B commitments v2of = .ok n') :
+    storeTxn sem n.chain B = .ok n'.chain ∧ DBInv n'.db n'.chain :=
+  storeDB_refines newBackend sem n n' B commitments v2of hi h
+
+/-- … and EXACTLY which blocks the concrete `Store` refuses although the abstract one accepts them: those
+on which `MessageHash` panics (an L1 handler without calldata) and those the casm-metadata step rejects.
+No I/O class can occur: on such a node `headStateRoot` always finds the header it reads. -/
+theorem store_level_success_iff {σ : Type} (newBackend : Bool) (sem : StateSem σ) (n : NodeS σ) (B : Bundle)
+    (commitments : Nat) (v2of : Nat → Nat) (hi : DBInv n.db n.chain) :
+    (∃ n', storeDB newBackend sem n B commitments v2of = .ok n') ↔
+      ((∃ c', storeTxn sem n.chain B = .ok c') ∧ (l1Writes B.block.txs).isSome = true ∧
+       ∃ cw, casmStep n.db B.block.header B.su.diff B.classes v2of = .ok cw) :=
+  storeDB_ok_iff newBackend sem n B commitments v2of hi
+
+/-- ALL HISTORIES: whatever (block, commitments) pairs a node that started empty is offered, on either
+backend, its index store agrees with its abstract chain, the abstract chain is linked and verified
+(`ChainOK`, as in `chain_invariant`), and `verifyBlockSuccession` evaluated on the STORE decides for any
+further header exactly what the abstract succession check decides. -/
+theorem store_level_invariant_all_histories {σ : Type} (newBackend : Bool) (sem : StateSem σ) (net : Net) (st0 : σ)
+    (v2of : Nat → Nat) (Bs : List (Bundle × Nat)) :
+    let n := runDB newBackend sem net v2of (emptyNode st0) Bs
+    DBInv n.db n.chain ∧ ChainOK sem net st0 n.chain.head n.chain.st n.chain.stored ∧
+    (headNumberAndHash n.db = (match n.chain.head with | some hd => .ok hd | none => .error .notFound)) ∧
+    ∀ h : Header, (verifySuccessionDB n.db h = .ok () ↔ verifySuccession n.chain.head h = .ok ()) := by
+  have hinv := runDB_preserves newBackend sem net st0 v2of Bs (emptyNode st0) ⟨DBInv.emptyNode st0, ChainOK.empty⟩
+  exact ⟨hinv.1, hinv.2, headNumberAndHash_of_inv _ _ hinv.1, fun h => verifySuccessionDB_ok_iff _ _ hinv.1 h⟩
+
+/-- the root the new state backend opens the state at (`headStateRoot`: the stored header of `Number - 1`) is,
+on every node whose store agrees with its chain, the state root the HEAD block declared — which by
+`chain_invariant` is the root of the node's current state — never a value the offered block supplies
+(the statement of fix d8ed24a on the level of the store). -/
+theorem new_backend_opens_state_at_the_head_root {σ : Type} (db : IDB) (c : Chain σ) (hi : DBInv db c) (h : Header)
+    (hs : verifySuccession c.head h = .ok ()) (B : Bundle) (rest : List Bundle) (hst : c.stored = B :: rest)
+    (hd : Head) (hhd : c.head = some hd) (h0 : h.number ≠ 0) :
+    headStateRootDB db h = .ok B.block.header.stateRoot :=
+  headStateRootDB_eq db c hi h hs B rest hst hd hhd h0
+
+/-- what a stored block leaves in the indexes: the height is its number, its header is found by number
+and its number by hash, its transactions / state update / commitments by number … -/
+theorem store_level_block_indexed {σ : Type} (newBackend : Bool) (sem : StateSem σ) (n n' : NodeS σ) (B : Bundle)
+    (commitments : Nat) (v2of : Nat → Nat) (h : storeDB newBackend sem n B commitments v2of = .ok n') :
+    n'.db.get .chainHeight = some (.num B.block.header.number) ∧
+    n'.db.get (.headerByNumber B.block.header.number) = some (.header B.block.header) ∧
+    n'.db.get (.numberByHash B.block.header.hash) = some (.num B.block.header.number) ∧
+    n'.db.get (.blockTxs B.block.header.number) = some (.body B.block.txs B.block.receipts) ∧
+    n'.db.get (.stateUpdate B.block.header.number) = some (.su B.su) ∧
+    n'.db.get (.commitments B.block.header.number) = some (.comms commitments) := by
+  unfold storeDB at h
+  split at h
+  · simp at h
+  · rename_i ws st' hcb
+    simp only [Except.ok.injEq] at h
+    subst h
+    exact applied_gets n.db B commitments v2of ws (storeCallback_ok newBackend sem n B commitments v2of ws st' hcb).2.2.2.2
+
+/-- … every transaction under its hash at (block number, position) — at EVERY position `i`; if a hash
+occurs more than once in the block the index names its last occurrence … -/
+theorem store_level_tx_index {σ : Type} (newBackend : Bool) (sem : StateSem σ) (n n' : NodeS σ) (B : Bundle)
+    (commitments : Nat) (v2of : Nat → Nat) (h : storeDB newBackend sem n B commitments v2of = .ok n') (i : Nat) (t : Tx)
+    (hi : B.block.txs[i]? = some t)
+    (hlast : ∀ j t', i < j → B.block.txs[j]? = some t' → t'.hash.getD (.felt 0) ≠ t.hash.getD (.felt 0)) :
+    n'.db.get (.txIndexByHash (t.hash.getD (.felt 0))) = some (.txIdx B.block.header.number (UInt64.ofNat i)) :=
+  storeDB_tx_index newBackend sem n n' B commitments v2of h i t hi hlast
+
+/-- … every L1-handler transaction under its message hash … -/
+theorem store_level_l1_message_index {σ : Type} (newBackend : Bool) (sem : StateSem σ) (n n' : NodeS σ) (B : Bundle)
+    (commitments : Nat) (v2of : Nat → Nat) (h : storeDB newBackend sem n B commitments v2of = .ok n') (l : L1HandlerTx)
+    (pre : List Term) (hm : Tx.l1Handler l ∈ B.block.txs) (hp : l1MsgPreimage l = some pre)
+    (huniq : ∀ l', Tx.l1Handler l' ∈ B.block.txs → l1MsgPreimage l' = some pre → l'.hash = l.hash) :
+    n'.db.get (.l1MsgHash pre) = some (.txHash l.hash) :=
+  storeDB_l1_index newBackend sem n n' B commitments v2of h l pre hm hp huniq
+
+/-- … and NOTHING else: every index key outside `storeKeys B` (another block number, another block or
+transaction hash, another message, another class) keeps its value. -/
+theorem store_level_frame {σ : Type} (newBackend : Bool) (sem : StateSem σ) (n n' : NodeS σ) (B : Bundle)
+    (commitments : Nat) (v2of : Nat → Nat) (h : storeDB newBackend sem n B commitments v2of = .ok n') (k : IKey)
+    (hk : ¬ storeKeys B k) : n'.db.get k = n.db.get k :=
+  storeDB_frame newBackend sem n n' B commitments v2of h k hk
+
+/-- `ClassCasmHashMetadata.Migrate` succeeds exactly on an entry declared with the V1 hash, strictly
+before the migrating block, and not migrated yet. -/
+theorem casm_migrate_ok_iff (m : CasmMeta) (blockNumber : UInt64) :
+    (∃ m', m.migrate blockNumber = .ok m') ↔
+      (m.casmHashV1.isSome = true ∧ m.declaredAt < blockNumber ∧ m.migratedAt = 0) :=
+  migrate_ok_iff m blockNumber
+
+/-- the hash a migrated entry answers for every height: not found below the declaration, the V1 hash
+from the declaration up to (excluding) the migration, the V2 hash from the migration on. -/
+theorem casm_hash_at_every_height (declaredAt migratedAt : UInt64) (v1 v2 : Nat) (m' : CasmMeta)
+    (hm : (CasmMeta.newV1 declaredAt v1 v2).migrate migratedAt = .ok m') (height : UInt64) :
+    m'.casmHashAt height =
+      if height < declaredAt then none else if height < migratedAt then some v1 else some v2 :=
+  casmHashAt_after_migrate declaredAt migratedAt v1 v2 m' hm height
+
+/-- ALL HISTORIES (no offered block numbered 2^64-1, so that "head + 1" never wraps): every casm metadata
+entry of the store was declared at or below the head, is not migrated or migrated strictly after its
+declaration and at or below the head, and a V2-declared entry is never migrated. -/
+theorem casm_invariant_all_histories {σ : Type} (newBackend : Bool) (sem : StateSem σ) (net : Net) (st0 : σ)
+    (v2of : Nat → Nat) (Bs : List (Bundle × Nat))
+    (hmax : ∀ Bc ∈ Bs, Bc.1.block.header.number.toNat + 1 < 2 ^ 64) :
+    let n := runDB newBackend sem net v2of (emptyNode st0) Bs
+    CasmInv n.db n.chain.head :=
+  runDB_casmInv newBackend sem net st0 v2of Bs hmax
+
+/-- … hence the guard `migratedAt <= declaredAt` of `Migrate` (`ErrCannotMigrateBeforeDeclared`) can never
+be what makes `Store` reject a block: on every reachable store the casm step of a block numbered above
+the head fails, if it fails, for another reason. -/
+theorem casm_before_declared_unreachable (db : IDB) (head : Option Head) (blockNumber : UInt64)
+    (hc : CasmInv db head) (habove : ∀ hd, head = some hd → hd.number < blockNumber) (migrated : FMap) (e : CasmErr)
+    (h : casmV2Migrated db blockNumber migrated = .error e) : e ≠ .migrate .beforeDeclared :=
+  casmV2Migrated_never_beforeDeclared db head blockNumber hc habove migrated e h
+
+/-- A declared-class entry WITHOUT definition in `newClasses`: `State.Update` leaves the class trie — hence
+the state root — untouched for it (`classTrieUpdates`), so the only thing that can stop a block carrying
+such an entry is the casm-metadata step of `writeBlockContent`. It does, for every protocol version
+below 0.14.1 — and from 0.14.1 on only with the repair (`chk = true`). -/
+theorem declared_class_without_definition_rejected (chk : Bool) (db : IDB) (h : Header) (d : StateDiff)
+    (classes : Classes) (v2of : Nat → Nat) (v : Ver) (hp : parseVersion h.version = some v)
+    (hchk : v.ge v0_14_1 = true → chk = true)
+    (hm : ∃ kc ∈ d.declaredV1, classes.find? (fun x => x.1 == kc.1) = none) :
+    (∃ e, casmStepWith chk db h d classes v2of = .error e) ∧
+    (∀ c x, classes.find? (fun k => k.1 == c) = none →
+      classTrieUpdates { d with declaredV1 := (c, x) :: d.declaredV1 } classes = classTrieUpdates d classes) :=
+  ⟨casmStepWith_rejects_declared_without_definition chk db h d classes v2of v hp hchk hm,
+   fun c x hc => classTrieUpdates_ignores_declared_without_definition d classes c x hc⟩
+
+/-- a state whose only content is the class trie, updated exactly as `State.Update` does -/
+def exClsNet : Net := ⟨strFelt "SN_SEPOLIA", 0, none, some (.felt 0x46a)⟩
+def exClsSem : StateSem FMap :=
+  ⟨fun st _ => .posN (st.flatMap (fun kv => [.felt kv.1, kv.2])), fun st _ d cs => some (st ++ classTrieUpdates d cs)⟩
+def exClsHeader : Header :=
+  { (default : Header) with
+      number := 0, parentHash := .felt 0, stateRoot := .posN [], sequencer := some (.felt 0x5e9),
+      timestamp := 1700000000, version := asciiBytes "0.14.1", l1GasPriceETH := .felt 3,
+      l1GasPriceSTRK := some (.felt 4), l1DataGasPrice := some ⟨some (.felt 5), some (.felt 6)⟩,
+      l2GasPrice := some ⟨some (.felt 7), some (.felt 8)⟩ }
+/-- the state diff declares class 7 with compiled class hash 9; `newClasses` is empty -/
+def exClsDiff : StateDiff := { (default : StateDiff) with declaredV1 := [(7, .felt 9)] }
+def exClsHash (ver : String) : Term :=
+  (blockHash exClsNet ⟨{ exClsHeader with version := asciiBytes ver }, [], []⟩ exClsDiff none).getD (.felt 0)
+def exClsBundle (ver : String) : Bundle :=
+  ⟨⟨{ exClsHeader with version := asciiBytes ver, hash := exClsHash ver }, [], []⟩, ⟨exClsHash ver, .posN [], .posN [], exClsDiff⟩, []⟩
+
+/-- DEFECT WITNESS for the code as it is (`chk = false`): a self-consistent 0.14.1 block whose state diff
+declares a class WITHOUT definition passes `SanityCheckNewHeight` and every check of `Store`, and is
+stored with the state root of the EMPTY class trie although its diff declares a class — the state is not
+the fold of the stored diffs. The same block labelled 0.14.0 is rejected by the casm step
+(`classMissing`), and with the repair (`chk = true`) the 0.14.1 block is rejected as well.
+Harness: known finding `declared-class-without-definition-stored-from-0-14-1`. -/
+theorem declared_class_without_definition_stored_from_0_14_1 :
+    verdict (sanityCheck exClsNet (exClsBundle "0.14.1")) = none ∧
+    verdictS (storeCallbackWith false false exClsSem (emptyNode []) (exClsBundle "0.14.1") 0 (fun _ => 0)) = none ∧
+    verdictS (storeCallbackWith false true exClsSem (emptyNode []) (exClsBundle "0.14.1") 0 (fun _ => 0)) = none ∧
+    verdictS (storeCallbackWith false false exClsSem (emptyNode []) (exClsBundle "0.14.0") 0 (fun _ => 0)) = some (.casm .classMissing) ∧
+    verdictS (storeCallbackWith true false exClsSem (emptyNode []) (exClsBundle "0.14.1") 0 (fun _ => 0)) = some (.casm .classMissing) := by
+  decide
+
+/-- `WriteL1HandlerMsgHashes` panics (`MessageHash` indexes `CallData[0]`) exactly when some L1-handler
+transaction of the block has no calldata. -/
+theorem l1_message_index_panics_iff (txs : List Tx) : l1Writes txs = none ↔ txs.any l1NoCalldata = true :=
+  l1Writes_none_iff txs
+
+/-- With the repair (`l1CalldataChecked = true`) a block that passed `SanityCheckNewHeight` cannot make
+`Store` panic there. -/
+theorem no_store_panic_when_l1_calldata_checked (net : Net) (B : Bundle) (hv : Verified net B)
+    (hc : l1CalldataChecked = true) : (l1Writes B.block.txs).isSome = true := by
+  cases h : l1Writes B.block.txs with
+  | some ws => rfl
+  | none =>
+    have := (l1Writes_none_iff B.block.txs).mp h
+    rw [hv.l1Calldata hc] at this
+    cases this
+
+/-- a self-consistent 0.14.0 block whose only transaction is an L1 handler WITHOUT calldata -/
+def exL1Empty0 : L1HandlerTx :=
+  { (default : L1HandlerTx) with contractAddress := .felt 0x101, entryPointSelector := .felt 0x5e1, nonce := some (.felt 1), callData := [] }
+def exL1Empty : L1HandlerTx :=
+  { exL1Empty0 with hash := (l1HandlerHash (strFelt "SN_SEPOLIA") exL1Empty0).getD (.felt 0) }
+def exL1Header : Header :=
+  { (default : Header) with
+      number := 0, parentHash := .felt 0, stateRoot := .felt 1001, sequencer := some (.felt 0x5e9),
+      txCount := 1, timestamp := 1700000000, version := asciiBytes "0.14.0", l1GasPriceETH := .felt 3,
+      l1GasPriceSTRK := some (.felt 4), l1DataGasPrice := some ⟨some (.felt 5), some (.felt 6)⟩,
+      l2GasPrice := some ⟨some (.felt 7), some (.felt 8)⟩ }
+def exL1Block0 : Block := ⟨exL1Header, [.l1Handler exL1Empty], [{ (default : Receipt) with txHash := exL1Empty.hash, totalGas := some ⟨1, 2, 3⟩ }]⟩
+def exL1Net : Net := ⟨strFelt "SN_SEPOLIA", 0, none, some (.felt 0x46a)⟩
+def exL1Hash : Term := (blockHash exL1Net exL1Block0 default none).getD (.felt 0)
+def exL1Bundle : Bundle :=
+  ⟨{ exL1Block0 with header := { exL1Header with hash := exL1Hash } }, ⟨exL1Hash, .felt 1001, .felt 1000, default⟩, []⟩
+def exL1Sem : StateSem Nat := ⟨fun st _ => .felt (1000 + st), fun st _ _ _ => some (st + 1)⟩
+
+/-- DEFECT WITNESS for the code as it is (`l1CalldataChecked = false`): the block above passes every check
+of `SanityCheckNewHeight` — the L1-handler transaction hash does not need the calldata — its number,
+parent and state roots continue the (empty) chain, and `Store` panics in `MessageHash` on both backends.
+Harness: known finding `store-panics-on-l1-handler-without-calldata`. -/
+theorem store_panics_on_l1_handler_without_calldata : l1CalldataChecked = false →
+    verdict (sanityCheck exL1Net exL1Bundle) = none ∧
+    verdict (storeTxn exL1Sem (emptyNode 0).chain exL1Bundle) = none ∧
+    verdictS (storeDB false exL1Sem (emptyNode 0) exL1Bundle 0 (fun _ => 0)) = some .panicL1 ∧
+    verdictS (storeDB true exL1Sem (emptyNode 0) exL1Bundle 0 (fun _ => 0)) = some .panicL1 := by
+  first
+  | (intro h; exact absurd h (by decide))
+  | (intro _
+     exact ⟨by decide, by decide, by decide, by decide⟩)
+
 /-! ## Non-vacuity: the hypotheses above are satisfiable -/
 
 section Examples
@@ -627,6 +906,42 @@ def exBundle0132 : Bundle :=
   ⟨⟨{ exHeader0132 with hash := exHash0132 }, exBlock0.txs, exBlock0.receipts⟩, ⟨exHash0132, .felt 1001, .felt 1000, exDiff⟩, []⟩
 example : (offer exSem exNet exChain exBundle0132).2 = none ∧
     dispatch exNet exBundle0132.block.header.number exBundle0132.block.header.version = some .v0132 := by decide
+
+/-- store-level non-vacuity: the example block is stored on the empty store-level node by both backends,
+its index entries are there, the derived head is the block, and offering it again is refused for its number -/
+def exNode1 : NodeS Nat := offerDB false exSem exNet (fun _ => 0) (emptyNode 0) (exBundle, 7)
+example : verdictS (storeDB false exSem (emptyNode 0) exBundle 7 (fun _ => 0)) = none ∧
+    verdictS (storeDB true exSem (emptyNode 0) exBundle 7 (fun _ => 0)) = none := by decide
+example : exNode1.db.get .chainHeight = some (.num 0) ∧
+    exNode1.db.get (.txIndexByHash exInvoke.hash) = some (.txIdx 0 0) ∧
+    (headNumberAndHash exNode1.db).toOption = some ⟨0, exHash⟩ := by decide
+example : verdictS (storeDB true exSem exNode1 exBundle 7 (fun _ => 0)) = some .number := by decide
+example : (headStateRootDB exNode1.db { (default : Header) with number := 1 }).toOption = some (.felt 1001) := by decide
+/-- casm metadata: declared with the V1 hash at block 3, migrated at block 9; a second migration, a migration
+of a V2-declared class and a migration at the declaring block are refused -/
+example : ((CasmMeta.newV1 3 0xa1 0xa2).migrate 9).toOption.map (fun m => (m.casmHashAt 2, m.casmHashAt 3, m.casmHashAt 8, m.casmHashAt 9))
+      = some (none, some 0xa1, some 0xa1, some 0xa2) ∧
+    (((CasmMeta.newV1 3 0xa1 0xa2).migrate 9).toOption.bind (fun m => (m.migrate 10).toOption)) = none ∧
+    ((CasmMeta.newV2 3 0xa2).migrate 9).toOption = none ∧ ((CasmMeta.newV1 3 0xa1 0xa2).migrate 3).toOption = none := by decide
+/-- the casm step rejects a 0.14.1 block that migrates a class without metadata -/
+example : (match casmStep [] { (default : Header) with version := asciiBytes "0.14.1", number := 4 }
+    { (default : StateDiff) with migrated := [(7, .felt 9)] } [] (fun _ => 0) with | .error e => some e | .ok _ => none)
+    = some .metaMissing := by decide
+
+/-- a network whose constants a short chain straddles (the harness's "network boundaries" phase uses the
+same): block 0 is hashed by `pre07Hash`, block 3 by `post07Hash`, block 4 lies in the unverifiable range -/
+def exBNet : Net := ⟨strFelt "SN_SEPOLIA", 2, some (4, 5), some (.felt 0x5e9)⟩
+example : dispatch exBNet 0 (asciiBytes "0.10.3") = some .pre07 ∧ dispatch exBNet 2 (asciiBytes "0.10.3") = some .post07 ∧
+    inUnverifiable exBNet 3 = false ∧ inUnverifiable exBNet 4 = true ∧ inUnverifiable exBNet 5 = true ∧ inUnverifiable exBNet 6 = false := by decide
+def exPre07Block0 : Block := ⟨{ exOldHeader (asciiBytes "0.10.3") with stateRoot := .felt 1001 }, [.invoke exOldInvoke], [{ (default : Receipt) with txHash := exOldInvoke.hash }]⟩
+def exPre07Hash : Term := (blockHash exBNet exPre07Block0 default none).getD (.felt 0)
+def exPre07Bundle : Bundle :=
+  ⟨{ exPre07Block0 with header := { exPre07Block0.header with hash := exPre07Hash } }, ⟨exPre07Hash, .felt 1001, .felt 1000, default⟩, []⟩
+/-- a pre-0.7 block is accepted; with another transaction count (hash kept) it is rejected; with another
+timestamp AND sequencer address it is still accepted (`exception_pre07_uncommitted`) -/
+example : (offer exOldSem exBNet exOldChain exPre07Bundle).2 = none ∧
+    (offer exOldSem exBNet exOldChain { exPre07Bundle with block := { exPre07Bundle.block with header := { exPre07Bundle.block.header with txCount := 2 } } }).2 = some .blockHash ∧
+    (offer exOldSem exBNet exOldChain { exPre07Bundle with block := { exPre07Bundle.block with header := { exPre07Bundle.block.header with timestamp := 5, sequencer := some (.felt 7) } } }).2 = none := by decide
 
 end Examples
 
